@@ -41,7 +41,7 @@ func TestCheck(t *testing.T) {
 		"Engine B: the C01 thread scenarios on allocator/dhcp/pool, preemption bound 2 (thorough 3)",
 		"a store fault = the i-th store call returns an error and has no effect; one fault per history (thorough: two)",
 		"units explicitly marked unavailable (dhcp.Pool.MarkUnavailable) are outside the conservation demand",
-		"PeerPool: single node (all subscribers local) and as node n1 of a 2-/3-node cluster of real PeerPools over an in-memory transport (failover decided by the real checkPeer, requests forwarded by a peer, membership changes); the reference is the local node's pool: a subscriber holds from the moment n1 hands it an address until n1 is asked to release it; routing is C17's subject",
+		"PeerPool: single node (all subscribers local) and as node n1 of a 2-/3-node cluster of real PeerPools over an in-memory transport (failover decided by the real checkPeer, requests forwarded by a peer, membership changes); the reference is the local node's pool: a subscriber holds from the moment n1 hands it an address until a Release for it is accepted (returns nil), wherever the cluster served it; whether Allocate is routed to the right node is C17's subject",
 		"nexus.Client is not named by C05",
 	}
 	ms := models(run, t)
